@@ -62,7 +62,7 @@ def jsonable(x, depth=0):
         import numpy as np
     except Exception:  # pragma: no cover
         np = None
-    if depth > 12:
+    if depth > 200:
         return repr(x)
     if x is None or isinstance(x, (bool, int, str)):
         return x
